@@ -194,27 +194,30 @@ theorem deliver_status : ∀ (d : Dec) (n : Nat) (h : Heap) (e : EventOf Ref), V
       exact deliverL_status ts n h e hv
   | .tagger a dd ts, n, h, e, hv => by
       simp only [deliver, paths]
-      cases htag : tagged h e a dd with
-      | nil =>
+      have hstep : ∀ o, taggerOut h e a dd = o → (applyStep (valOf h e) (.tag a dd)) = { valOf h e with tags := o } := by
+        intro o ho
+        subst ho
+        simp only [applyStep, taggerOut, tagged, valOf, snapEvent]
+        rfl
+      cases hout : taggerOut h e a dd with
+      | none =>
         simp only []
         have ih := deliverL_status ts n h { e with tags := none } trivial
         refine ⟨ih.1, All2.map_left _ (All2.imp (fun p g hh => ?_) ih.2)⟩
         apply StatusRel.step (.tag a dd)
         have : valOf h { e with tags := none } = applyStep (valOf h e) (.tag a dd) := by
-          show _ = { valOf h e with tags := if (tagged h e a dd).isEmpty then none else some (tagged h e a dd) }
-          rw [htag]; rfl
+          rw [hstep none hout]; rfl
         rw [← this]; exact hh
-      | cons x xs =>
+      | some s =>
         simp only []
-        have hle : Le h { h with fresh := h.fresh ++ [x :: xs] } := ⟨rfl, [x :: xs], rfl⟩
-        have ih := deliverL_status ts n { h with fresh := h.fresh ++ [x :: xs] }
+        have hle : Le h { h with fresh := h.fresh ++ [s] } := ⟨rfl, [s], rfl⟩
+        have ih := deliverL_status ts n { h with fresh := h.fresh ++ [s] }
           { e with tags := some (.fresh h.fresh.length) } (by simp [Valid])
         refine ⟨Le.trans hle ih.1, All2.map_left _ (All2.imp (fun p g hh => ?_) ih.2)⟩
         apply StatusRel.step (.tag a dd)
-        have : valOf { h with fresh := h.fresh ++ [x :: xs] } { e with tags := some (.fresh h.fresh.length) }
+        have : valOf { h with fresh := h.fresh ++ [s] } { e with tags := some (.fresh h.fresh.length) }
             = applyStep (valOf h e) (.tag a dd) := by
-          show _ = { valOf h e with tags := if (tagged h e a dd).isEmpty then none else some (tagged h e a dd) }
-          rw [htag]
+          rw [hstep (some s) hout]
           simp [valOf, snapEvent, deref]
         rw [← this]; exact hh
   | .stamp t, n, h, e, hv => by
@@ -579,6 +582,33 @@ example :
 regenerated on every run into `TTV/Generated/C11.lean`) is the model's `tagged` -/
 theorem C11_src_tagger (h : Heap) (e : EventOf Ref) (add discard : List Nat) :
     tagged h e add discard = norm (TTV.Generated.C11.taggerTags_src ((deref h e.tags).getD []) add discard) := rfl
+
+theorem insertU_ne_nil (y : Nat) : ∀ ys : List Nat, insertU y ys ≠ []
+  | [] => by simp [insertU]
+  | z :: zs => by
+      unfold insertU
+      split
+      · simp
+      · split <;> simp
+
+theorem norm_isEmpty (xs : List Nat) : (norm xs).isEmpty = xs.isEmpty := by
+  cases xs with
+  | nil => rfl
+  | cons x xs =>
+    have h := insertU_ne_nil x (norm xs)
+    show (insertU x (norm xs)).isEmpty = false
+    cases hh : insertU x (norm xs) with
+    | nil => exact absurd hh h
+    | cons _ _ => rfl
+
+/-- **when a tagger hands on `None` is the code's**: the whole `test_tags` value `StreamTagger.status` forwards - the set
+arithmetic AND the rule `test_tags or None` - translated from the source, is the model's `taggerOut` (up to the canonical
+order of a set's elements): `None` exactly when the resulting set is empty (behaviour pinned by
+`TestStreamTagger.test_discarding`) -/
+theorem C11_src_tagger_none (h : Heap) (e : EventOf Ref) (add discard : List Nat) :
+    taggerOut h e add discard = (TTV.Generated.C11.taggerOut_src (deref h e.tags) add discard).map norm := by
+  simp only [taggerOut, TTV.Generated.C11.taggerOut_src, C11_src_tagger, TTV.Generated.C11.taggerTags_src, norm_isEmpty]
+  split <;> simp
 
 /-! ## more ties to the source (`harness/pystream.py` → `TTV/Generated/DecoSrc.lean`, regenerated on every run) -/
 open TTV.DecoSrc in
